@@ -1425,4 +1425,86 @@ theorem factorsDim_perm {l1 l2 : List (String × Int)} (h : l1.Perm l2) : factor
     rw [← Dim.add_assoc', ← Dim.add_assoc', Dim.add_comm' (Dim.smul e' _)]
   | trans _ _ ih1 ih2 => rw [ih1, ih2]
 
+/-! ### the replace chain only rewrites the letter `u`: character classes are preserved position-wise -/
+
+theorem replaceAux_map {β} (q : Char → β) (hq : q 'u' = q 'µ') (a b t : List Char) (ha : a = 'u' :: t)
+    (hb : b = 'µ' :: t) : ∀ (s : List Char) (skip : Nat),
+    (s.take skip ++ replaceAux a b skip s).map q = s.map q := by
+  intro s
+  induction s with
+  | nil => intro skip; simp [replaceAux]
+  | cons c cs ih =>
+    intro skip
+    cases skip with
+    | succ k =>
+      have := ih k
+      simp only [List.take_succ_cons, replaceAux, List.cons_append, List.map_cons, this]
+    | zero =>
+      simp only [List.take_zero, List.nil_append, replaceAux]
+      split
+      · rename_i hm
+        simp only [Bool.and_eq_true] at hm
+        have hp : a <+: (c :: cs) := List.isPrefixOf_iff_prefix.1 hm.1
+        subst ha hb
+        obtain ⟨r, hr⟩ := hp
+        simp only [List.cons_append, List.cons.injEq] at hr
+        obtain ⟨hc, hcs⟩ := hr
+        subst hc
+        have h2 := ih t.length
+        rw [← hcs] at h2 ⊢
+        simp only [List.take_left', List.length_cons, Nat.add_sub_cancel] at h2 ⊢
+        simp only [List.cons_append, List.map_cons, hq]
+        rw [h2]
+      · have := ih 0
+        simp only [List.take_zero, List.nil_append] at this
+        simp only [List.map_cons, this]
+
+theorem replaceChain_map {β} (q : Char → β) (hq : q 'u' = q 'µ') (l : List (String × String))
+    (hl : ∀ p ∈ l, patOk p.1.toList p.2.toList = true) (s : List Char) :
+    (l.foldl (fun acc (p : String × String) => replaceAll p.1.toList p.2.toList acc) s).map q = s.map q := by
+  induction l generalizing s with
+  | nil => rfl
+  | cons p ps ih =>
+    simp only [List.foldl_cons]
+    rw [ih (fun x hx => hl x (by simp [hx]))]
+    have hp := hl p (by simp)
+    unfold patOk at hp
+    split at hp
+    · rename_i x t y t' h1 h2
+      simp only [Bool.and_eq_true, beq_iff_eq] at hp
+      have := replaceAux_map q hq p.1.toList p.2.toList (x :: t) h1 (by rw [h2, ← hp.1.2, ← hp.2]) s 0
+      simpa [replaceAll] using this
+    · exact absurd hp (by simp)
+
+def stripByG {α} (p : α → Bool) (s : List α) : List α := ((s.dropWhile p).reverse.dropWhile p).reverse
+
+theorem stripBy_map (p : Char → Bool) (s : List Char) : (stripBy p s).map p = stripByG id (s.map p) := by
+  unfold stripBy stripByG
+  have hcomp : (id ∘ p) = p := rfl
+  rw [List.dropWhile_map, ← List.map_reverse, List.dropWhile_map, hcomp, List.map_reverse]
+
+/-- preprocessing preserves where the blanks are: a blank that survives Python's `strip()` of the raw
+text survives in the preprocessed text, and the preprocessed text is empty iff the stripped raw text is -/
+theorem prepUnits_blank_classes (s0 : List Char) :
+    (prepUnits s0).map isBlank = (stripBlank s0).map isBlank := by
+  unfold prepUnits stripBlank
+  rw [stripBy_map, stripBy_map]
+  have h := replaceChain_map isBlank (by decide) uSubst uSubst_patOk s0
+  have h' : (uSubst.foldl (fun acc (x : String × String) =>
+      match x with | (a, b) => replaceAll a.toList b.toList acc) s0).map isBlank = s0.map isBlank := h
+  rw [h']
+
+theorem parseUnitsChars_inner_blank (s0 : List Char) (h : (stripBlank s0).any isBlank = true) :
+    parseUnitsChars s0 = .error .badSyntax := by
+  have hm := prepUnits_blank_classes s0
+  have hany : (prepUnits s0).any isBlank = true := by
+    have e1 : (prepUnits s0).any isBlank = ((prepUnits s0).map isBlank).any id := by simp [List.any_map]
+    have e2 : (stripBlank s0).any isBlank = ((stripBlank s0).map isBlank).any id := by simp [List.any_map]
+    rw [e1, hm, ← e2, h]
+  have hne : prepUnits s0 ≠ [] := by
+    intro h0; rw [h0] at hany; simp at hany
+  have h1 : (prepUnits s0).isEmpty = false := by simpa using hne
+  have hg : puRejectsInnerBlank = true := rfl
+  simp [parseUnitsChars, parseUnitsCore, h1, hany, hg]
+
 end Strengths
